@@ -119,6 +119,48 @@ impl<T: DeserializeOwned> Wire<T> for BincodeWire {
     }
 }
 
+/// bincode with a NON-default configuration (the codec must decode with the
+/// configuration it was built with, not with `standard()`)
+#[derive(Clone, Copy)]
+pub struct BincodeBeWire;
+impl<T: DeserializeOwned> Wire<T> for BincodeBeWire {
+    fn name(&self) -> &'static str {
+        "bincode-big-endian"
+    }
+    fn header(&self, cur: &mut &[u8]) -> Result<Header<T>, String> {
+        let cfg = bincode::config::standard().with_big_endian().with_limit::<65536>();
+        let (h, n) = bincode::serde::decode_from_slice::<Header<T>, _>(cur, cfg).map_err(|e| e.to_string())?;
+        *cur = &cur[n..];
+        Ok(h)
+    }
+    fn member(&self, cur: &mut &[u8]) -> Result<Member<T>, String> {
+        let cfg = bincode::config::standard().with_big_endian().with_limit::<65536>();
+        let (h, n) = bincode::serde::decode_from_slice::<Member<T>, _>(cur, cfg).map_err(|e| e.to_string())?;
+        *cur = &cur[n..];
+        Ok(h)
+    }
+}
+
+#[derive(Clone, Copy)]
+pub struct BincodeLegacyWire;
+impl<T: DeserializeOwned> Wire<T> for BincodeLegacyWire {
+    fn name(&self) -> &'static str {
+        "bincode-legacy"
+    }
+    fn header(&self, cur: &mut &[u8]) -> Result<Header<T>, String> {
+        let cfg = bincode::config::legacy().with_limit::<65536>();
+        let (h, n) = bincode::serde::decode_from_slice::<Header<T>, _>(cur, cfg).map_err(|e| e.to_string())?;
+        *cur = &cur[n..];
+        Ok(h)
+    }
+    fn member(&self, cur: &mut &[u8]) -> Result<Member<T>, String> {
+        let cfg = bincode::config::legacy().with_limit::<65536>();
+        let (h, n) = bincode::serde::decode_from_slice::<Member<T>, _>(cur, cfg).map_err(|e| e.to_string())?;
+        *cur = &cur[n..];
+        Ok(h)
+    }
+}
+
 impl Wire<crate::doubles::Id> for crate::doubles::FixCodec {
     fn name(&self) -> &'static str {
         if self.var {
